@@ -61,7 +61,7 @@ MODULES = {
     "C02": (["C02", "E2E"], []),
     "C03": (["C03", "C03u"], []),
     "C09": (["C09", "C09m", "C09d"], []),
-    "C04": (["C04", "C04w"], []),
+    "C04": (["C04", "C04w", "C04s"], []),
     "C07": (["C07", "C07e"], []),
     "C08": (["C08", "C08s"], []),
     "C10": (["C10", "C19e", "C10s"], []),
